@@ -119,7 +119,9 @@ theorem testify_scopes_wellformed_partial (m : MethodOut) (retName : String)
     (hown : ∀ n ∈ (m.params.map (·.name) ++ retName :: resultLocals m.results.length) ++ m.results.map (·.name),
       n ∉ testifyOwn ∧ n ≠ "mock")
     (hty : ∀ x ∈ typeIdents m,
-      x ∉ (m.params.map (·.name) ++ retName :: resultLocals m.results.length) ++ m.results.map (·.name) ∧ x ∉ testifyOwn) :
+      x ∉ (m.params.map (·.name) ++ retName :: resultLocals m.results.length) ++ m.results.map (·.name) ∧ x ∉ testifyOwn)
+    (hargs : (argLocals m.params.length).Nodup ∧
+      ∀ x ∈ argLocals m.params.length, x ∉ testifyOwn ∧ x ≠ "mock" ∧ x ∉ typeIdents m) :
     ∀ f ∈ testifyFns m retName, f.wf := by
   intro f hf
   simp only [testifyFns, List.mem_cons, List.not_mem_nil, or_false] at hf
@@ -149,12 +151,16 @@ theorem testify_scopes_wellformed_partial (m : MethodOut) (retName : String)
     · exact (List.nodup_append.1 hnd).1
     · exact fun x hx => sub _ (by simp [testifyOwn]) x hx _ (fun y hy => List.mem_append_left _ (List.mem_append_left _ hy))
     · intro x hx; cases hx
-  · apply wf_of_disjoint
+  · have hsub : ∀ x ∈ ["_c", "run", "args", "variadicArgs", "i", "a"], x ∈ testifyOwn := by simp [testifyOwn]
+    apply wf_of_disjoint
     · simp
-    · simp
-    · intro x _ hu; cases hu
+    · exact hargs.1
+    · intro x hx hu
+      exact (hargs.2 x hu).1 (hsub x hx)
     · intro x hx
-      exact outer _ [] (by simp [testifyOwn]) (fun y hy => by cases hy) x (by simpa using hx)
+      rcases List.mem_cons.1 hx with rfl | hx
+      · exact ⟨by simp, fun h => (hargs.2 _ h).2.1 rfl⟩
+      · exact ⟨fun h => (hty x hx).2 (hsub x h), fun h => (hargs.2 x h).2.2 hx⟩
   · apply wf_of_disjoint
     · simp
     · exact hrs
